@@ -1,5 +1,5 @@
-(* C11 — no torn values, no corrupted structure under concurrent use. Table level (HtableLtsProofs.v): the (key, value) a lock-free lookup returns are fields of ONE item object created by ONE write (items are never mutated), the per-instant well-formedness invariant WFc holds in EVERY reachable state including between the two stores of an operation, and replaced arrays are frozen. Data-race freedom in the Go memory model sense is outside the model (trusted base item 6); the conc stream runs under -race in the thorough tier. Only `exact` + Print Assumptions. *)
-Require Import KV.Base KV.HtableModel KV.HtableProofs KV.HtableTrace KV.HtableLts KV.HtableLtsProofs.
+(* C11 — no torn values, no corrupted structure under concurrent use. Table level (HtableLtsProofs.v): the (key, value) a lock-free lookup returns are fields of ONE item object created by ONE write (items are never mutated), the per-instant well-formedness invariant WFc holds in EVERY reachable state including between the two stores of an operation, and replaced arrays are frozen. Data-race freedom in the Go memory model sense is outside the model (trusted base item 6); the conc stream runs under -race in the thorough tier. Only `exact` + Print Assumptions. Read-sample ring (ReadBuffer.v, tied by the rb stream): indices stay in range and nothing is fabricated under any interleaving of wait-free producers and the single consumer. Locked structures (MutexAtomicity.v): every reader under the RWMutex sees a state satisfying the invariant preserved by lock-protected bodies. *)
+Require Import KV.Base KV.HtableModel KV.HtableProofs KV.HtableTrace KV.HtableLts KV.HtableLtsProofs KV.ReadBuffer KV.MutexAtomicity.
 Open Scope Z_scope.
 
 (* a hit's key and value come from one item object of one write *)
@@ -27,7 +27,8 @@ Proof. exact single_item_snapshot. Qed.
 (* per-instant structural invariant in every reachable state *)
 Theorem c11_structure_every_instant :
   forall hashf : Z -> Z,
-         (forall k : Z, 0 <= hashf k) -> forall g : gstate, reachable hashf g -> WFc hashf g.
+         (forall k : Z, 0 <= hashf k) ->
+         forall g : gstate, HtableLtsProofs.reachable hashf g -> WFc hashf g.
 Proof. exact wfc_invariant. Qed.
 
 (* a reader's array snapshot is never written again after being replaced *)
@@ -35,7 +36,7 @@ Theorem c11_old_arrays_frozen :
   forall hashf : Z -> Z,
          (forall k : Z, 0 <= hashf k) ->
          forall (g : gstate) (t : nat) (g' : gstate) (o : list Z),
-         reachable hashf g ->
+         HtableLtsProofs.reachable hashf g ->
          lstep g t = Some (g', o) ->
          (data (gmem g) <= data (gmem g'))%nat /\
          (forall d : nat, (d < data (gmem g))%nat -> getarr (gmem g') d = getarr (gmem g) d) /\
@@ -59,7 +60,7 @@ Theorem c11_reader_terminates :
   forall hashf : Z -> Z,
          (forall k : Z, 0 <= hashf k) ->
          forall (g1 : gstate) (r : nat) (k h : Z) (sch : list nat) (d i : nat) (k' h' : Z),
-         reachable hashf g1 ->
+         HtableLtsProofs.reachable hashf g1 ->
          rpcof (rth g1 r) = R201 k h ->
          (forall gj : gstate, In gj (ltrace g1 sch) -> rpcof (rth gj r) <> RB) ->
          rpcof (rth (lfinal g1 sch) r) = R202 d i k' h' \/
@@ -72,9 +73,91 @@ Theorem c11_nonvacuous :
   Forall (WFc NonVacuity.hf) (ltrace NonVacuity.g0 NonVacuity.sch).
 Proof. exact NonVacuity.wfc_every_state. Qed.
 
+(* read-sample ring: every cell access uses index position mod 64 < 64 for a ticket below tail, under every interleaving (no out-of-range access, no panic) *)
+Theorem c11_readbuffer_indices_in_range :
+  forall (scripts : list (list Z)) (st : ReadBuffer.state),
+         ReadBuffer.reachable scripts st ->
+         length (buf st) = NSLOT /\
+         Forall
+           (fun a : nat * nat =>
+            snd a = (fst a mod NSLOT)%nat /\ (snd a < length (buf st))%nat /\ (fst a < tail st)%nat)
+           (acc st).
+Proof. exact ReadBuffer.indices_in_range. Qed.
+
+(* every fingerprint replayed into the sketch was sampled (at most as often as sampled), is non-zero, and comes from a caller's value *)
+Theorem c11_readbuffer_no_fabrication :
+  forall (scripts : list (list Z)) (st : ReadBuffer.state),
+         ReadBuffer.reachable scripts st ->
+         (forall x : Z, (cnt x (delivered st) <= cnt x (tick st))%nat) /\
+         Forall nz (delivered st) /\
+         (forall x : Z, In x (tick st) -> exists h : Z, In h (concat scripts) /\ x = fix0 h).
+Proof. exact ReadBuffer.no_fabrication. Qed.
+
+(* exact accounting: stored = delivered + overwritten-unread + still buffered *)
+Theorem c11_readbuffer_accounting :
+  forall (scripts : list (list Z)) (st : ReadBuffer.state),
+         ReadBuffer.reachable scripts st ->
+         (forall x : Z,
+          x <> 0 -> cnt x (stored st) = (cnt x (delivered st) + cnt x (lost st) + cnt x (buf st))%nat) /\
+         (forall x : Z,
+          cnt x (tick st) = (cnt x (stored st) + ReadBuffer.count (pendp x) (prods st))%nat).
+Proof. exact ReadBuffer.sample_accounting. Qed.
+
+(* head <= tail always *)
+Theorem c11_readbuffer_cursors :
+  forall (scripts : list (list Z)) (st : ReadBuffer.state),
+         ReadBuffer.reachable scripts st -> (head st <= tail st)%nat.
+Proof. exact ReadBuffer.head_le_tail. Qed.
+
+(* a drain running alone from a coherent window delivers exactly the most recent min(tail-head, 64) samples, in order *)
+Theorem c11_readbuffer_window :
+  forall (scripts : list (list Z)) (st : ReadBuffer.state),
+         ReadBuffer.reachable scripts st ->
+         cons st = CIdle ->
+         window_ok st ->
+         tail st <> head st ->
+         let n := Nat.min (tail st - head st) NSLOT in
+         let st' := ReadBuffer.exec (repeat 0%nat (n + 3)) st in
+         cons st' = CIdle /\
+         head st' = tail st /\
+         tail st' = tail st /\
+         delivered st' = delivered st ++ lastn n (tick st) /\
+         lost st' = lost st /\ stored st' = stored st /\ prods st' = prods st.
+Proof. exact ReadBuffer.window. Qed.
+
+(* non-vacuity: 70 samples then one drain delivers 7..70, loses 1..6 *)
+Theorem c11_readbuffer_lapped_example :
+  Examples.view Examples.lap_final = (Examples.zs 7 64, Examples.zs 1 6, (70%nat, 70%nat), []).
+Proof. exact ReadBuffer.Examples.lapped_stripe. Qed.
+
+(* a reader holding the RWMutex in read mode sees a state that satisfies every invariant preserved by the write-locked bodies (no half-updated list or counter) *)
+Theorem c11_locked_reader_sees_invariant :
+  forall (S R : Type) (s0 : S) (scripts : list (list (op S R))) (Inv : S -> Prop)
+           (st : state S R) (t : nat),
+         Inv s0 ->
+         scripts_ok scripts (preserves Inv) -> reachable s0 scripts st -> in_read st t -> Inv (sh st).
+Proof. exact MutexAtomicity.reader_sees_quiescent_state. Qed.
+
+(* writers exclude writers and readers; the drain token has one holder *)
+Theorem c11_locked_mutual_exclusion :
+  forall (S R : Type) (s0 : S) (scripts : list (list (op S R))) (st : state S R),
+         reachable s0 scripts st ->
+         (forall t1 t2 : nat, in_write st t1 -> in_write st t2 -> t1 = t2) /\
+         (forall t1 t2 : nat, in_write st t1 -> ~ in_read st t2) /\
+         (forall t1 t2 : nat, holds_outer st t1 -> holds_outer st t2 -> t1 = t2).
+Proof. exact MutexAtomicity.mutual_exclusion. Qed.
+
 Print Assumptions c11_single_item_snapshot.
 Print Assumptions c11_structure_every_instant.
 Print Assumptions c11_old_arrays_frozen.
 Print Assumptions c11_writer_alone_is_sequential.
 Print Assumptions c11_reader_terminates.
 Print Assumptions c11_nonvacuous.
+Print Assumptions c11_readbuffer_indices_in_range.
+Print Assumptions c11_readbuffer_no_fabrication.
+Print Assumptions c11_readbuffer_accounting.
+Print Assumptions c11_readbuffer_cursors.
+Print Assumptions c11_readbuffer_window.
+Print Assumptions c11_readbuffer_lapped_example.
+Print Assumptions c11_locked_reader_sees_invariant.
+Print Assumptions c11_locked_mutual_exclusion.
